@@ -115,7 +115,7 @@ def order_oracles(ev, n, per):
 
 
 def run_one(impl, cfg, timeout=120, env=None):
-    line = '%s %d %d %d %d %d' % (cfg['mode'], cfg['n'], cfg['per'], cfg['seed'], cfg['perturb'], cfg['sinkdelay'])
+    line = '%s %d %d %d %d %d %d' % (cfg['mode'], cfg['n'], cfg['per'], cfg['seed'], cfg['perturb'], cfg['sinkdelay'], cfg.get('stall', 0))
     rc, out, err = vlib.sh([impl], inp=(line + '\n').encode(), timeout=timeout, env=env)
     return (rc,) + parse_out(out) + (err,)
 
@@ -126,8 +126,15 @@ def gen_configs(chk, reps, total):
         for mode in ('bare', 'logger'):
             for n in (1, 2, 4, 8, 16):
                 cfgs.append({'mode': mode, 'n': n, 'per': max(2, total // n), 'seed': chk.rng.randrange(1, 2 ** 31),
-                             'perturb': chk.rng.choice([0, 1, 2, 2, 3]), 'sinkdelay': chk.rng.choice([0, 1, 2, 2])})
+                             'perturb': chk.rng.choice([0, 1, 2, 2, 3]), 'sinkdelay': chk.rng.choice([0, 1, 2, 2]), 'stall': 0})
     return cfgs
+
+
+def stall_configs(chk, total, ms):
+    """a stalled sink and a large backlog: the sink sleeps `ms` inside its first delivery while `total` messages are posted;
+    no logging call may wait for it"""
+    return [{'mode': mode, 'n': 4, 'per': total // 4, 'seed': chk.rng.randrange(1, 2 ** 31), 'perturb': 0, 'sinkdelay': 0, 'stall': ms}
+            for mode in ('bare', 'logger')]
 
 
 def evaluate(chk, model, cfg, res, stats, report):
@@ -140,6 +147,16 @@ def evaluate(chk, model, cfg, res, stats, report):
                dict(cfg, kind=kind, rc=rc, stderr=err[-1500:]), kind)
         return
     stats['events'] += len(ev); stats['deliveries'] += len(asy)
+    # --- the logging call never waits for a sink
+    mc = re.search(r'maxcall_us=(\d+)', hdr)
+    if cfg.get('stall') and mc:
+        stats['stalled_sink_runs'] += 1
+        stats['max_call_ms_while_sink_stalled'] = max(stats['max_call_ms_while_sink_stalled'], int(mc.group(1)) // 1000)
+        if int(mc.group(1)) > cfg['stall'] * 1000 * 2 // 3:
+            stats['kinds']['blocked_on_sink'] = stats['kinds'].get('blocked_on_sink', 0) + 1
+            report('a logging call took %d ms while the sink was stalled for %d ms with %d messages outstanding: the call waited for the sink'
+                   % (int(mc.group(1)) // 1000, cfg['stall'], n * per),
+                   dict(cfg, kind='blocked_on_sink', max_call_ms=int(mc.group(1)) // 1000, backlog=n * per, header=hdr), 'blocked_on_sink')
     # --- content: every delivered message vs its synchronous twin
     for k, p, i, w, d in asy:
         twin = tw.get((p, i))
@@ -225,11 +242,12 @@ def run():
     model = vlib.build_model('async')
     impl = vlib.build_harness('async')
     thorough = chk.tier == 'thorough'
-    cfgs = gen_configs(chk, 8 if thorough else 2, 1200)
+    cfgs = stall_configs(chk, 40000 if thorough else 10400, 1500) + gen_configs(chk, 8 if thorough else 2, 1200)
     if not proof_ok:
-        cfgs += gen_configs(chk, 3, 1200)
+        cfgs += gen_configs(chk, 3, 1200) + stall_configs(chk, 40000, 2500)
     stats = {'events': 0, 'deliveries': 0, 'kinds': {}, 'model_copies': 0, 'model_disagreements': 0, 'acceptor_runs': 0,
-             'max_backlog': 0, 'runs_with_backlog': 0, 'null_ptr_msgs': 0, 'preformatted_msgs': 0}
+             'max_backlog': 0, 'runs_with_backlog': 0, 'null_ptr_msgs': 0, 'preformatted_msgs': 0,
+             'stalled_sink_runs': 0, 'max_call_ms_while_sink_stalled': 0}
     reported = [0]
 
     def report(what, replay, kind):
@@ -260,7 +278,8 @@ def run():
                     'rule': 'runs = repetitions x {bare OwnThreadHandler<SimplePipeline>, installed Logger via QMessageLogger} in own-thread mode x '
                             'producers in {1,2,4,8,16}, ~1200 messages per run, heap source-location buffers scrubbed+freed after the call, '
                             'every 5th message null file/function, every 7th null category, seeded perturbation at the schedule points, '
-                            'slow/fast sink; non-trivial = at least two deliveries per producer',
+                            'slow/fast sink, plus runs with a sink stalled for 1.5 s under a backlog of >= 10 400 messages (no call may wait for it); '
+                            'non-trivial = at least two deliveries per producer',
                     'events_recorded': stats['events'], 'deliveries_compared_with_twin': stats['deliveries'],
                     'messages_with_null_pointers': stats['null_ptr_msgs'], 'messages_preformatted': stats['preformatted_msgs'],
                     'model_copies_compared': stats['model_copies'], 'model_vs_impl_disagreements': stats['model_disagreements'],
@@ -269,6 +288,7 @@ def run():
                     'mode_histogram': {m: sum(1 for c, _ in results if c['mode'] == m) for m in ('bare', 'logger')},
                     'producers_histogram': {str(n): sum(1 for c, _ in results if c['n'] == n) for n in (1, 2, 4, 8, 16)},
                     'sinkdelay_histogram': {str(d): sum(1 for c, _ in results if c['sinkdelay'] == d) for d in range(3)},
+                    'stalled_sink_runs': stats['stalled_sink_runs'], 'max_call_ms_while_sink_stalled': stats['max_call_ms_while_sink_stalled'],
                     'violation_kinds': stats['kinds'], 'sanitizer_variant': san})
     chk.samples = [{'config': c, 'header': r[1], 'first_events': r[2][:14]} for c, r in results[:3]]
     return chk.finish()
@@ -283,7 +303,7 @@ def replay(path):
     vlib.gen_src(['async'])
     model = vlib.build_model('async')
     impl = vlib.build_harness('async', 'san' if r.get('sanitizer') else '')
-    cfg = {k: r[k] for k in ('mode', 'n', 'per', 'seed', 'perturb', 'sinkdelay')}
+    cfg = {k: r.get(k, 0) for k in ('mode', 'n', 'per', 'seed', 'perturb', 'sinkdelay', 'stall')}
     print('recorded:', r.get('kind'), r.get('detail') or r.get('fields'), {k: r.get(k) for k in ('synchronous', 'asynchronous') if k in r})
     for k in range(3):
         rc, hdr, ev, tw, asy, err = run_one(impl, cfg)
